@@ -19,8 +19,11 @@ type c20 struct{ fw.Base }
 
 func init() { fw.Register(c20{}) }
 
-func (c20) ID() string             { return "C20" }
-func (c20) Race() bool             { return false }
+func (c20) ID() string { return "C20" }
+
+// Race: the history cases run concurrent Loads on one DataSource (the engine does: a cached plan
+// serves many requests), so the workers are the -race binary.
+func (c20) Race() bool             { return true }
 func (c20) CrashIsViolation() bool { return false }
 func (c20) CaseTimeout(string) int { return 120 }
 
@@ -30,11 +33,17 @@ const (
 	reformsPerOp  = 4
 )
 
+// cases [0, baseCases) are the reformulation cases (their indices are stable: pinned witnesses of
+// listed findings refer to them), cases [baseCases, baseCases+historyCases) the history cases.
 func (c20) NumCases(tier string) int {
-	if tier == fw.Thorough {
-		return thoroughCases
+	return baseCases(tier) + historyCases(tier)
+}
+
+func guardQuery(r *rig, query string) string {
+	if _, errs := gqlparser.LoadQuery(r.model.s, query); len(errs) > 0 {
+		return errs[0].Message
 	}
-	return quickCases
+	return ""
 }
 
 func (c20) Rule() string {
@@ -47,7 +56,13 @@ func (c20) Rule() string {
 		"Oracles on the bytes returned by Load: A shape — exactly the response keys of the selection for the run-time type (CollectFields over the harness' own tree; D: client operation, E: the engine's upstream operation), list-ness, scalar kinds, enum values, __typename, entity i answers representation i; " +
 		"B metamorphic — every field position (path of base-field ids + list indices) common to q and q' carries the same value, a field selected twice in one operation has one value, q' succeeds iff q succeeds (a subset of a succeeding q succeeds); also D against E when both issued the same RPC requests; " +
 		"C projection — following the recorded protobuf answers by the configured field-name mapping (root RPC answers; result[n] of resolve/require RPCs for the n-th parent object), scalar leaves, list lengths, the concrete type of oneofs and presence (null <-> unset) equal the service data; wherever the walk is not certain nothing is judged. " +
-		"A case is non-trivial when q succeeded and at least one reformulation was compared on >=1 common field position; distinct by hash of (q, variables)."
+		"A case is non-trivial when q succeeded and at least one reformulation was compared on >=1 common field position; distinct by hash of (q, variables). " +
+		"HISTORY cases (indices after the reformulation cases; 900 quick / 13500 thorough): one operation with boosted field-resolver selection (2 of 4 over a Query field whose type has resolvers, 1 of 4 any root operation, 1 of 4 an entity lookup), ONE DataSource instance planned for it, " +
+		"and a sequence of 2-5 requests served by that instance; a request = (one of up to 4 variants of the argument values / representations, 0-4 of them, that normalise to the same upstream operation) x (a world: the mock as it is, or a deterministic variation of the fake service keyed by (world, method, request): " +
+		"root answers with emptied lists / unset objects, resolve RPCs whose results are all or partly null / empty, RPCs failing with Unavailable); the first request mostly in the unvaried world, every 6th request repeats an earlier one byte for byte (same arena key). " +
+		"Oracle H history independence — each answer of the re-used instance equals (same kind data/errors; data: canonical JSON) the answer of a NEVER-USED DataSource of the same operation to that single request in the same world (no ground truth needed); oracles A and C run on every answer of the re-used instance. " +
+		"Every second history case then serves the same requests from 3-6 goroutines x 2 rounds on the shared instance under the race detector, each answer judged by H against the sequential reference. " +
+		"A history case is non-trivial when >=1 answer after an earlier request was compared."
 }
 
 func (c20) Assumptions() []string {
@@ -59,6 +74,10 @@ func (c20) Assumptions() []string {
 		"a null is a violation only when the recorded service answer has data at that position; absent service data (the mock leaves e.g. Owner.pet unset) projected as null in a non-null position is counted, not judged",
 		"order of keys inside JSON objects is not judged; root fields of mutations are neither reordered nor duplicated under a second alias",
 		"the mock echoes the key of a looked-up entity (id), which is what the entity alignment check compares with the representation",
+		"a DataSource is planned for one operation (Load reads only body.variables), so a history varies variables and service data, not the operation; DataSources of different operations share the RPCCompiler, the mapping and the transport within a worker process, as they do in the engine",
+		"a DataSource is shared by concurrent requests (graphql_datasource plans it into the fetch of a plan that ExecutionEngine caches), so concurrent Loads on one instance are in scope; a data race with a repository frame is a violation",
+		"history: two failed answers are the same answer whatever their error text (which of several failing RPCs is reported is not judged); a request whose never-used answer is not reproducible within the case is counted (history_fresh_answers_unstable), not judged; more/fewer RPCs with an equal answer are counted, not judged",
+		"the worlds only remove data (empty list, unset message) or fail a call; a resolve RPC keeps one result per context element",
 	}
 }
 
@@ -66,7 +85,9 @@ func (c20) RequiredCounters(string) []string {
 	return []string{"operations", "operations_succeeded", "reformulations_compared", "field_positions_compared", "rpc_calls", "rpc_memo_hits",
 		"leaf_values_checked", "typename_values_checked", "leaf_values_compared_with_service_data", "root_fields_followed_in_service_data", "batch_results_followed_in_service_data",
 		"abstract_positions", "entity_operations_succeeded", "entity_keys_checked",
-		"engine_operations", "engine_upstream_operations_judged", "engine_reformulations_compared", "cross_path_field_positions_compared"}
+		"engine_operations", "engine_upstream_operations_judged", "engine_reformulations_compared", "cross_path_field_positions_compared",
+		"history_cases", "history_variants", "history_answers_compared_after_a_different_request", "history_requests_skipping_calls_made_earlier", "history_fresh_answers_data", "history_fresh_answers_failed",
+		"history_operations_with_2_resolver_levels", "history_operations_with_3_resolver_levels", "history_answers_judged_by_projection_oracles", "history_concurrent_answers_compared"}
 }
 
 // ---- one execution + oracle A/C -----------------------------------------------------------------
@@ -118,6 +139,13 @@ func evaluate(r *rig, res *fw.Result, op *operation, fed []fedConfig, steps []st
 		e.lr = r.loadDirect(e.query, e.vars, fed)
 		res.Count("operations", 1)
 	}
+	return judge(r, res, e, viaEngine, path)
+}
+
+// judge runs oracles A and C on one executed operation (e.lr is filled in).
+func judge(r *rig, res *fw.Result, e *evaluated, viaEngine bool, path string) *evaluated {
+	op := e.op
+	steps := e.steps
 	for _, c := range e.lr.calls {
 		e.rpcKeys[c.key] = true
 		res.Count("rpc_calls", 1)
@@ -553,6 +581,9 @@ func subsetOf(a, b map[string]bool) bool {
 var masks = [reformsPerOp]int{1 | 8, 4 | 16, 2, 0}
 
 func (p c20) Run(c *fw.Ctx, idx int) fw.Result {
+	if b := baseCases(c.Tier); idx >= b {
+		return p.runHistory(c, idx, idx-b)
+	}
 	res := fw.Result{Key: fw.HashKey("C20", c.Seed, idx)}
 	r, err := getRig()
 	if err != nil {
